@@ -187,7 +187,11 @@ func (w *world) mkSpend(m *model.Ledger, fat bool) (model.Txn, bool) {
 			ids = free
 		}
 	}
-	nIn := 1 + t.Pick("n-in", 6, 2, 1)
+	nIn := 1 + t.Pick("n-in", 12, 4, 2, 1)
+	if nIn == 4 {
+		// now and then a transaction with many inputs (as many as are available, up to 14)
+		nIn = 5 + t.Int("n-in-many", 10)
+	}
 	if nIn > len(ids) {
 		nIn = len(ids)
 	}
